@@ -102,7 +102,7 @@ theorem recAdd_ok (dt : Data) : ∀ (dl : List Nat) (n : NodeRec), (n.dps ++ dl)
     simp
 
 /-- `TreeNode(grid, log_prior, name)` followed by `add_data_point_list(dl)` -/
-theorem recAdd_fresh (dt : Data) (idx : Nat) (name : Int) (dl : List Nat) (h : dl.Nodup) :
+theorem recAdd_fresh_c15 (dt : Data) (idx : Nat) (name : Int) (dl : List Nat) (h : dl.Nodup) :
     recAdd dt (freshRec dt idx name) dl = some (specRec dt idx name dl) := by
   have := recAdd_ok dt dl (freshRec dt idx name) (by simpa [freshRec] using h)
   rw [this]
@@ -162,7 +162,7 @@ theorem buildSF_ok (dt : Data) (d : TDict) : ∀ (g : SF) (fuel : Nat), g.numNod
     rw [rootIdxs_cons]
     unfold buildSF
     have hkids' : (List.map (fun x => x.2) (List.filter (fun x => decide (x.1 = n.idx)) d.edges)) = rootIdxs k := hkids
-    simp only [p1, p2, p3, recAdd_fresh dt n.idx n.name n.dps p4, hkids', ek, es,
+    simp only [p1, p2, p3, recAdd_fresh_c15 dt n.idx n.name n.dps p4, hkids', ek, es,
       Option.bind_eq_bind, Option.bind_some, bne_self_eq_false, Bool.false_eq_true, ↓reduceIte,
       Option.pure_def]
     simp [raw, SF.mapRecs]
